@@ -42,12 +42,14 @@ def rand_sheet_name(rng):
     base = rng.choice(SHEETS)
     r = rng.random()
     if r < 0.15:
-        return base
+        return base if rng.random() < 0.7 else rng.choice([" " + base, base + "  ", " " + base.upper() + " "])
     if r < 0.25:
         return base.upper() if rng.random() < 0.5 else base.capitalize()
     name = mutate_name(rng, base, rng.choice([1, 1, 2, 2, 3, 4]))
     if rng.random() < 0.1:
         name = "_" + name
+    if rng.random() < 0.15:      # spaces around the name: the readers ignore them, and so does the spelling check
+        name = rng.choice([" ", "", "  "]) + name + rng.choice([" ", "  ", "\t"])
     return name
 
 
@@ -239,7 +241,7 @@ def expected_warnings(form, delim, xform):
     names = [s for s in form if not s.startswith("__")]
     for key in ("settings", "entities"):
         if not form.get(key):
-            cands = tuple(k for k in names if full_matrix_distance(k.lower(), key) <= 2 and k.lower() not in SHEETS and not k.startswith("_"))
+            cands = tuple(k for k in names if full_matrix_distance(k.strip().lower(), key) <= 2 and k.strip().lower() not in SHEETS and not k.startswith("_"))
             if cands:
                 exp.add(("misspell", key, cands))
     # IANA: languages of the output's translations
@@ -264,7 +266,7 @@ def expected_warnings(form, delim, xform):
         tl = t.lower()
         if tl in ("image", "photo") and "max-pixels" not in row.get("parameters", ""):
             exp.add(("maxpixels", i))
-        if tl in ("subscriberid", "simserial"):
+        if tl in ("subscriberid", "simserial", "subscriber id", "get subscriber id", "sim id", "get sim id"):      # every spelling of the two deprecated preloads
             exp.add(("deprecated", i, tl))
         if t.endswith(" or_other"):
             or_other = True
@@ -325,7 +327,7 @@ def parse_warnings(ws):
             row, rest = int(m.group(1)), m.group(2)
             if rest.startswith("Use the max-pixels"):
                 got.add(("maxpixels", row)); continue
-            mm = re.match(r"^(\w+) is no longer supported", rest)
+            mm = re.match(r"^([\w ]+?) is no longer supported", rest)
             if mm:
                 got.add(("deprecated", row, mm.group(1))); continue
             mm = re.match(r"^(Group|Repeat) has no label", rest)
@@ -345,7 +347,7 @@ def parse_warnings(ws):
 
 def gen_warning_form(rng):
     prof = forms.Profile(adversarial=0.1, max_rows=rng.choice([3, 5, 8]), p_ref_in_label=0.05, p_or_other=0.3, or_other_with_langs=True,
-                         types=["text", "integer", "image", "image", "note", "date", "calculate", "subscriberid", "simserial", "deviceid", "geopoint"])
+                         types=["text", "integer", "image", "image", "note", "date", "calculate", "subscriberid", "simserial", "deviceid", "geopoint", "sim id", "get subscriber id", "subscriber id", "get sim id", "phonenumber"])
     g = forms.FormGen(rng, prof)
     g.delim = "::"
     if rng.random() < 0.3:   # a form whose only translatable columns name exactly one explicit language
@@ -387,7 +389,7 @@ def gen_warning_form(rng):
         form.pop("settings", None)
     for _ in range(rng.choice([0, 0, 1, 2])):
         name = rand_sheet_name(rng)
-        if name not in form and name.strip() and name.lower() not in {k.lower() for k in form} and name not in SHEETS:
+        if name not in form and name.strip() and name.strip().lower() not in {k.strip().lower() for k in form} and name.strip().lower() not in SHEETS:
             form[name] = [{"a": "b"}]
     if "settings" in form and rng.random() < 0.15:
         form["settings"][0]["form_id"] = "x1"
